@@ -21,6 +21,7 @@ mod c12;
 mod c12x;
 mod c12fs;
 mod c13;
+mod c13x;
 mod c09;
 mod c10;
 mod c14;
